@@ -17,7 +17,7 @@ def sanitizer_props(kind, run):
 
 def R(engine, flavour, shards=NCPU, **kw):
     d = {"engine": engine, "flavour": flavour, "shards": shards, "args": {}}
-    for k in ("timeout", "parallel", "miriflags", "san_props"):
+    for k in ("timeout", "parallel", "miriflags", "san_props", "no_restart"):
         if k in kw:
             d[k] = kw.pop(k)
     d["args"] = {k.replace("_", "-"): v for k, v in kw.items()}
@@ -342,4 +342,166 @@ PLANS["C14"] = {
     "thorough": [R("vtime", "dbg", cases=100000000, now_cases=400000),
                  R("vtime", "rel", cases=400000000, now_cases=400000),
                  R("vtime", "miri", cases=3000, now_cases=0, timeout=3000)],
+}
+
+
+MIRI_ABT = "-Zmiri-disable-isolation -Zmiri-many-seeds=%d..%d"
+
+def abt_miri(lo, hi, extra="", **kw):
+    return R("abt", "miri", shards=1, mode="plain", miriflags=(MIRI_ABT % (lo, hi)) + extra, san_props=["C13"], no_restart=True, timeout=3000, **kw)
+
+PLANS["C13"] = {
+    "level": "exploration",
+    "technique": "log-checking monitor (untorn, membership, never-observable, per-thread monotone, recent, final) over (a) Miri many-seeds executions of the real atomics (weak-memory emulation + seeded scheduler + data-race detector, no harness synchronisation during the run) and (b) native multi-thread stress with delay injection at every atomic access through hook H3 (ticket-ordered traces)",
+    "rule": ("cases = executions of a multi-thread workload on one AtomicBaseTime: writers issue globally unique base times through update / try_update "
+             "(mostly increasing, one fifth deliberately below the thread's own newest completed one) and snapshot in between; readers only snapshot; "
+             "every thread logs into its own buffer and logs are checked after join. (a) under Miri: 2 writers x 4 updates, 2 readers x 6 snapshots, "
+             "one execution per Miri seed (each seed = a different legal schedule and reads-from choice under Miri's C++20-style store-buffer "
+             "emulation), Miri itself reports data races / UB / panics; (b) native: 4 writers x 25 updates + 4 readers x 50 snapshots per run, seeded "
+             "delays (yield / spin / sleep) injected before each atomic access and lock operation via the H3 callback, each access stamped with a "
+             "global ticket. Oracle: every snapshot pair has the voucher of its base (untorn) and is the epoch pair or a pair passed to update / "
+             "try_update; bases of refused (try_update == false) or stale-when-issued updates are never observed by anyone; try_update never accepts "
+             "a base below the thread's own completed one; per-thread snapshot bases never decrease; a snapshot is >= the thread's own completed "
+             "updates and (b) >= every update that returned (ticket) before it began; the final quiescent snapshot is the newest accepted base; no "
+             "thread panics. non-trivial = every execution; distinct = distinct hash of all per-thread logs (a) / of the ticket-ordered access trace (b)."),
+    "assumptions": ["Miri's weak-memory emulation samples C++20 behaviours (store-buffer staleness, no load-buffering / out-of-thin-air); bounded to 4 threads x a dozen operations",
+                    "H3 stand-ins delegate to the real std atomics with the caller's ordering; the monitors never assert which Ordering is passed",
+                    "thread spawn/join are the only harness-induced happens-before edges in (a)"],
+    "required_features": ["abt.plain_runs", "abt.stress_runs", "abt.snapshots_that_retried", "abt.snapshots_overlapping_1_completed_update",
+                          "abt.snapshots_overlapping_2_completed_updates", "abt.try_update_returned_false", "abt.stale_updates_issued",
+                          "abt.snapshots_of_another_threads_update"],
+    "quick": [abt_miri(0, 96),
+              R("abt", "rel", mode="stress", cases=4000)],
+    "thorough": [abt_miri(0, 1024),
+                 abt_miri(1024, 2048, " -Zmiri-preemption-rate=0.1"),
+                 abt_miri(2048, 3072, " -Zmiri-preemption-rate=0.3", writers=3, updates=3, readers=1, snapshots=8),
+                 abt_miri(3072, 4096, " -Zmiri-preemption-rate=0.05", writers=1, updates=8, readers=3, snapshots=5),
+                 R("abt", "rel", mode="stress", cases=200000),
+                 R("abt", "dbg", mode="stress", cases=20000)],
+}
+
+PLANS["C18"] = {
+    "level": "fault_enumeration",
+    "technique": "fault enumeration over suspension points: through hook H3 a writer is frozen at each of its instrumented steps (before/after every atomic access and lock operation), then a solo snapshot / try_update / get_base_time_unlocked runs to completion and its own step and lock-operation stream is judged; a blocking lock request against a frozen holder is a deterministic 'would wait' event",
+    "level_text": "Bounded-complete enumeration of writer suspension points (first 20 instrumented events of update / try_update, 0..3 prior updates, optional second blocked writer, solo thread optionally parked mid-read while writes complete) on a private AtomicBaseTime and on nfs_voucher's static; held on every enumerated scenario.",
+    "rule": ("cases = scenarios: writer op in {update, try_update} x completed updates before in 0..3 x freeze point = each of the writer's first 20 "
+             "instrumented events (before/after lock, try_lock, each load, each slot store, the sequence store, unlock) x solo op in {snapshot, "
+             "try_update} x optional second writer blocked on the lock; plus solo snapshot parked at each of its first 8 events while the released "
+             "writer completes 0..2 further updates; plus, on the process-wide static of nfs_voucher, writer = observe_file_time (try_update path) or "
+             "get_base_time(now+1h) (blocking update path) frozen at each of its first 24 events with solo get_base_time_unlocked. Oracle on the solo "
+             "thread's own event stream: it completes; snapshot / get_base_time_unlocked perform zero lock operations, try_update exactly one "
+             "non-blocking attempt and no blocking lock; atomic steps <= 8 with no write completing during the call, <= 8*(1+c) with c completing; "
+             "the sequence word is re-read more than twice only if it changed; try_update returns false iff the frozen writer holds the lock; the "
+             "returned pair is untorn, was passed to an update, and is at least as new as every update completed before. non-trivial = scenarios "
+             "in which the writer was really frozen (or the solo thread parked); distinct = distinct scenario."),
+    "assumptions": ["suspension points are the steps instrumented by H3 (every atomic access and lock operation of atomic_base_time); a blocking construct that bypasses the stand-ins would make the solo thread hang and the 20 s watchdog reports that as inconclusive (exit 3), never as a violation",
+                    "the frozen thread is released only after the verdict"],
+    "required_features": ["park.writer_frozen_holding_lock", "park.writer_frozen_without_lock", "park.second_writer_blocked", "park.solo_paused_mid_read",
+                          "park.solo_retried_after_writes_completed", "park.try_update_true", "park.try_update_false_lock_held",
+                          "park.static_writer_frozen_holding_lock", "park.frozen_before_Store", "park.frozen_after_Store", "park.frozen_before_Unlock"],
+    "quick": [R("park", "dbg", repeats=4)],
+    "thorough": [R("park", "dbg", repeats=8),
+                 R("park", "rel", repeats=8),
+                 R("park", "miri", shards=4, parallel=4, static=0, max_freeze=18, timeout=3000, san_props=["C18", "C13"])],
+}
+
+PLANS["C19"] = {
+    "level": "exploration",
+    "technique": "provenance monitor over the nfs_voucher module functions, one fresh process per history, on two real writable devices (scratch dir file system and /dev/shm) plus /proc and /dev: after every call the base time is monotone and any change equals the harness's own change-time reading of a file the call could examine on a trusted (or just-registered) device",
+    "rule": ("cases = histories of 5..40 module calls in a fresh process: add_trusted_path (none yet / first / second device, either device first), "
+             "observe_file_time and maybe_observe_file_time on {old file created before trust, file whose change-time was bumped by chmod just before the "
+             "call} x {device A, device B}, /proc/self/stat, /dev/null and the trusted path itself, scan_base_time, get_base_time(now) with now in "
+             "{base-10 s, base, base+1993 ms, base+1994 ms, base+1 h}, get_base_time_unlocked, and sleeps of 1..4 ms or 101 ms (the refresh throttle). "
+             "Oracle after every call: get_base_time_unlocked().0 never decreases; if it changed, the new value equals the change-time (ms) the "
+             "harness itself reads from one of the files this call could have stat-ed on a device that was trusted before the call or is being "
+             "registered by it; observe_file_time returns None for every other device and Some((that file's change-time, voucher)) for trusted ones; "
+             "nothing moves before any trust and scan_base_time / get_base_time do not fail then; every returned pair vouches for its base; no call "
+             "panics. Nothing requires an update to happen. non-trivial = every history; distinct = distinct (moves, untrusted reports, old-file "
+             "observations, refreshes, calls before trust, second device, length class)."),
+    "assumptions": ["the sandbox offers two writable devices with millisecond change-times (ext4 under /verif/target/tmp and tmpfs /dev/shm); otherwise the run is inconclusive",
+                    "NFS itself is not available; the property is about device identity and change-times, which local file systems exercise identically",
+                    "one history per process because the module state is process-global"],
+    "required_features": ["nfs.base_time_moved", "nfs.untrusted_device_reported_nothing", "nfs.pseudo_fs_reported_nothing",
+                          "nfs.older_trusted_file_did_not_move_base", "nfs.get_base_time_refreshed", "nfs.get_base_time_did_not_refresh",
+                          "nfs.calls_before_any_trust", "nfs.second_device_trusted"],
+    "quick": [R("nfs", "dbg", shards=960, parallel=64, cases=960)],
+    "thorough": [R("nfs", "dbg", shards=4000, parallel=64, cases=4000),
+                 R("nfs", "rel", shards=1000, parallel=64, cases=1000)],
+}
+
+MIRI_NOSB = "-Zmiri-disable-isolation -Zmiri-disable-stacked-borrows"
+
+C05_RULE = (
+    "cases = the histories of four engines, all run with the exposed-slice monitor: (iovec) multi-iovec histories incl. clone, take, clear, drop "
+    "mid-history, arena take/swap/flush, anchored pushes whose halves are held back and pushed later or into another iovec, partial consumption; "
+    "(codec) Encoder/Decoder round trips with anchored / trimmed / split / encode_read input and arena pokes through consumer().arena(); (stream) "
+    "StreamChunker Data slices held across arena flushes/swaps until the end of the case and StreamReader records; (readn) AnchoredSlices that "
+    "outlive their arena. After every operation every slice reachable through a read side (stable_prefix, front, iovs, iteration, AnchoredSlice::slice, "
+    "Chunk::Data, returned records) must lie inside a live arena chunk per the H1 registry or inside a harness buffer that is still alive, must not "
+    "be empty, arena-resident slices of one view must be pairwise disjoint, and every byte is read and compared (so that AddressSanitizer, Miri and "
+    "the debug 0xFC poison see the access). Arena turnover is forced (flush_cache, take/swap_arena, ensure_capacity, chunk exhaustion) between the "
+    "operation that could under-count and the later observation. The same histories run in an ASan+LSan build and, shortened, under Miri "
+    "(dangling / out-of-bounds / uninitialised reads; experimental aliasing model off, see DESIGN observation O1). non-trivial = every history; "
+    "distinct = distinct feature-vector hash as for C03 / C01 / C08 / C17.")
+
+PLANS["C05"] = {
+    "level": "exploration",
+    "technique": "exposed-slice monitor against the H1 live-chunk registry + AddressSanitizer build + Miri (aliasing model off) + debug 0xFC poison, on the iovec / codec / stream / readn histories with forced arena turnover and random drop orders",
+    "rule": C05_RULE,
+    "assumptions": IOVEC_ASSUME + ["lifetimes of caller buffers are enforced by the borrow checker on the harness itself and are not monitored",
+                                   "ASan cannot see overruns that stay inside a live chunk; the disjointness and content checks cover those",
+                                   "Miri's Stacked/Tree Borrows checks are off for owning_iovec (observation O1 in DESIGN.md): they flag consume_by_bytes + later merge on the unchanged tree, which is not one of the listed properties"],
+    "required_features": ["iovec.exposed_slices_in_arena", "iovec.held_anchored_slice_pushed_later", "iovec.arena_swaps", "iovec.iovec_dropped_mid_history",
+                          "stream.chunker.exposed_slices_checked", "stream.reader.exposed_slices_checked", "codec.enc.arena_poke", "codec.enc.method.AnchoredSplit",
+                          "readn.exposed_slices_checked"],
+    "quick": [R("iovec", "dbg", cases=200000, focus="C05"),
+              R("codec", "dbg", mode="random", prod_cases=20000, tiny_cases=200000),
+              R("stream", "dbg", mode="chunker,reader", chunk_cases=300000, reader_cases=200000),
+              R("readn", "dbg", script_len=4, wrapper_script_len=3, cases=50000),
+              R("iovec", "asan", cases=12000, focus="C05"),
+              R("codec", "asan", mode="random", prod_cases=2000, tiny_cases=20000),
+              R("stream", "asan", mode="chunker,reader", chunk_cases=20000, reader_cases=15000),
+              R("iovec", "miri", cases=32, focus="C05", ops=40, timeout=3000, miriflags=MIRI_NOSB)],
+    "thorough": [R("iovec", "dbg", cases=3000000, focus="C05"),
+                 R("iovec", "rel", cases=6000000, focus="C05"),
+                 R("codec", "dbg", mode="random", prod_cases=150000, tiny_cases=2000000),
+                 R("stream", "dbg", mode="chunker,reader,logs", chunk_cases=4000000, reader_cases=3000000, log_cases=500),
+                 R("readn", "dbg", script_len=6, wrapper_script_len=5, cases=1000000),
+                 R("iovec", "asan", cases=600000, focus="C05"),
+                 R("codec", "asan", mode="random", prod_cases=40000, tiny_cases=400000),
+                 R("stream", "asan", mode="chunker,reader", chunk_cases=600000, reader_cases=400000),
+                 R("readn", "asan", script_len=4, wrapper_script_len=3, cases=100000),
+                 R("iovec", "miri", cases=320, focus="C05", ops=60, timeout=6000, miriflags=MIRI_NOSB),
+                 R("codec", "miri", mode="random", prod_cases=32, tiny_cases=320, timeout=6000, miriflags=MIRI_NOSB),
+                 R("stream", "miri", mode="chunker,reader", chunk_cases=96, reader_cases=96, timeout=6000, miriflags=MIRI_NOSB)],
+}
+
+PLANS["C10"] = {
+    "level": "exploration",
+    "technique": "conservation monitor on the public process-wide counters (ByteArena::num_live_chunks / num_live_bytes back to their starting values after every history's objects are dropped in a random order) + LeakSanitizer on the same histories + bounded-footprint monitor on long drained streams",
+    "rule": ("cases = (a) the iovec / codec / stream histories (see C03, C01, C08): each records the live-chunk and live-byte counters before it starts "
+             "(single-threaded process), runs, drops every iovec, clone, taken arena, held AnchoredSlice, encoder, decoder, chunker and reader in a "
+             "seeded random order and requires both counters to be back; an ASan+LSan build re-runs a slice and checks the heap at exit (the H1 "
+             "registry stores addresses only); (b) long streams: S MiB pushed through a production Encoder (half of them through an Encoder->Decoder "
+             "pipeline) in pieces of 1 B..256 KiB by borrow / copy / encode_read, draining everything consumable after every call by a random "
+             "mechanism (consume, advance_slices, Read); live arena bytes must stay <= 8 MiB at every call and at every stream length, counters back "
+             "to baseline afterwards; the evidence records the observed maximum per length. non-trivial = every history / stream; distinct = "
+             "feature-vector hashes as for C03 / C01 / C08 and (length, payload style, piece sizes, pipeline, input method) for streams."),
+    "assumptions": ["unbounded stream length restated as: flat observed maxima at several lengths under one fixed constant (8 MiB)",
+                    "the counters are process-wide, so each history runs in a single-threaded process"],
+    "required_features": ["iovec.drop_accounting_checked", "codec.drop_accounting_checked", "stream.drop_accounting_checked", "stream.drained_every_call",
+                          "stream.pipeline", "iovec.clones", "iovec.takes", "iovec.held_anchored_slice_pushed_later"],
+    "quick": [R("iovec", "dbg", cases=200000, focus="C10"),
+              R("codec", "dbg", mode="random", prod_cases=20000, tiny_cases=200000),
+              R("stream", "dbg", mode="chunker,reader", chunk_cases=200000, reader_cases=200000),
+              R("codec-stream", "rel", shards=16, streams=96, mib=16, big_mib=64, focus="C10"),
+              R("iovec", "asan", cases=8000, focus="C10", san_props=["C10", "C05"])],
+    "thorough": [R("iovec", "dbg", cases=3000000, focus="C10"),
+                 R("iovec", "rel", cases=6000000, focus="C10"),
+                 R("codec", "dbg", mode="random", prod_cases=150000, tiny_cases=2000000),
+                 R("stream", "dbg", mode="chunker,reader,logs", chunk_cases=3000000, reader_cases=3000000, log_cases=400),
+                 R("codec-stream", "rel", shards=16, streams=256, mib=64, big_mib=1024, focus="C10"),
+                 R("codec-stream", "dbg", shards=16, streams=64, mib=16, big_mib=64, focus="C10"),
+                 R("iovec", "asan", cases=400000, focus="C10", san_props=["C10", "C05"]),
+                 R("stream", "asan", mode="chunker,reader", chunk_cases=200000, reader_cases=200000, san_props=["C10", "C05"])],
 }
